@@ -108,9 +108,9 @@ Print Assumptions C03_source_frames.
    layout the footer records, and stops at the sentinel without touching it ---------- *)
 From BV Require Import ConstsActual ChunkWalkOk.
 Theorem C03_source_chunk_list_walk : forall k cs, Forall (fun c => c_foot c <> k_eaddr k) cs ->
-  forall extra tr f0, exists f1,
-    exec src_fns (wfuel (List.length cs) extra) (walk_env k cs f0) tr walk_body
-    = Some (walk_env k [] f1, List.app tr (map (freed k) cs)).
+  forall extra tr sc f0, exists f1,
+    exec src_fns (wfuel (List.length cs) extra) (walk_env k cs f0) tr sc walk_body
+    = XOk (walk_env k [] f1) (List.app tr (map (freed k) cs)) sc.
 Proof. exact walk_frees_the_list. Qed.
 
 (* and those calls are what the model reports as freed: every chunk on drop, all but the current one on reset *)
